@@ -181,6 +181,10 @@ POSITIONS = {
     "INPUT target": "10 INPUT A$",
     "LINE INPUT target": "10 LINE INPUT A$",
     "implicit string array": '10 A$(1)="x"',
+    "string name listed twice in one DIM": "10 DIM A$,B$,A$:A$=B$",
+    "configured and plain string listed twice in one DIM": "10 DIM N$(2),B$,N$(2),B$:B$=N$(1)",
+    "numeric name listed twice in one DIM": "10 DIM E,F,E:E=F",
+    "scalar DIMmed in two statements": "10 DIM E:DIM E,F$:E=1",
     "implicit string array, two-character name": '10 NM$(1)="x":Z9$(2)=NM$(1)',
     "implicit numeric array, two-character name": "10 NM(1)=2:Z9(2)=NM(1)",
     "DIMensioned scalar": '10 DIM A$\n20 A$="x"',
@@ -229,5 +233,6 @@ def positions():
 def obligations():
     # the requested size reaches the library through `string<<>>`: a sized string handed on inside the library keeps it
     from tx.p_c14 import sized_strings_stay_sized
-    from tx import p_c09
-    return dim_contract() + pass_steps() + positions() + sized_strings_stay_sized() + __import__("tx.p_c05", fromlist=["share"]).share("once/", p_c09.kinds_in_declarations())
+    from tx import p_c09, p_c13
+    return dim_contract() + pass_steps() + positions() + sized_strings_stay_sized() + __import__("tx.p_c05", fromlist=["share"]).share("once/", p_c09.kinds_in_declarations()) + __import__("tx.p_c05", fromlist=["share"]).share(
+        "bundled/", [o for o in p_c13.regex_contracts() if "STR_STORAGE_TAG" in o["id"]] + p_c13.requested_size_reaches_bundle())
